@@ -134,12 +134,21 @@ def execute(spec, choices, wd, line_trace=False):
 
     def one_session(tag):
         z = py7zr.SevenZipFile(apath, "r")
+        def live():
+            return [p.name for p in sched.parts if p.state not in ("done", "new") and not p.daemon and p is not sched.main and p.name.startswith("T") and not p.name.startswith("caller")]
+
         try:
-            if spec["sink"] == "factory":
-                z.extractall(factory=fac.factory)
-            else:
-                z.extractall(path=dest)
-            obs.setdefault("live_at_return", []).extend(p.name for p in sched.parts if p.state not in ("done", "new") and not p.daemon and p is not sched.main and p.name.startswith("T") and not p.name.startswith("caller"))
+            try:
+                if spec["sink"] == "factory":
+                    z.extractall(factory=fac.factory)
+                else:
+                    z.extractall(path=dest)
+            except BaseException as ex:  # noqa
+                # control is back at the caller through an exception: the workers must be finished all the same
+                if type(ex).__name__ != "SchedulerAbort":
+                    obs.setdefault("live_at_return", []).extend(live())
+                raise
+            obs.setdefault("live_at_return", []).extend(live())
         finally:
             z.close()
 
@@ -250,7 +259,7 @@ def judge(spec, obs):
             if r != obs["expected"]:
                 out.append(("output-differs", "a concurrent independent session got a different result"))
     if obs.get("live_at_return"):
-        out.append(("worker-still-running-at-return", f"extractall returned while {obs['live_at_return']} had not finished"))
+        out.append(("worker-still-running-at-return", f"extractall returned (or raised) while {obs['live_at_return']} had not finished"))
     if obs["worker_exc"]:
         out.append(("uncaught-in-thread", f"exception escaped a thread: {obs['worker_exc']}"))
     return out
